@@ -214,6 +214,7 @@ package provider
 //@   ensures C08.accepted-means-login-redirect-for-the-stored-id: accepted() ==> emitKind == 2 && emitCode == 303 && spOK &&
 //@             emitStr == fnStr1(regSP().loginURL, arID(persistRes))
 //@   ensures C08,C10.otherwise-one-failure-reply: !accepted() ==> failedReply()
+//@   ensures C11.issuer-of-every-reply-is-the-idp-entity-id: !httpError() && emitKind != 2 ==> respMsg().Issuer != nil && respMsg().Issuer.Text == idpEntityID(p, r)
 //@   ensures C08.never-persisted-when-unanswerable: persistCount == old(persistCount) + 1 ==> persistAcs != "" &&
 //@             (persistBinding == PostBinding || persistBinding == RedirectBinding)
 //@   ensures C10.no-persistence-after-a-fault: !persistedAfterFault
@@ -335,17 +336,12 @@ package provider
 //@   ensures C12.destination-check-passed-on-the-decoded-query: answered() ==> adCalls == old(adCalls) + 1 && adOK && adReq == decObj && mdCalls == old(mdCalls) + 1 && adMeta == mdAA
 //@   ensures C12.user-resolved-for-the-queried-subject: answered() ==> aq().Subject.NameID != nil && uiOK && userinfoCalls == old(userinfoCalls) + 1 &&
 //@             uiLogin == aq().Subject.NameID.Text && mqAttrs == uiObj
-//@   ensures C12.response-built-for-this-query-and-requester: answered() ==> mqReqID == aq().Id && mqEntity == spMeta().EntityID && mqIssuer == idpEntityID(p, r)
+//@   ensures C11,C12.response-built-for-this-query-and-requester: answered() ==> mqReqID == aq().Id && mqEntity == spMeta().EntityID && mqIssuer == idpEntityID(p, r)
 //@   ensures C12,C04.assertion-signed-as-sent: answered() ==> keyOK && aqResp().Assertion.Signature == sigOut && sigOut != nil && signCount == old(signCount) + 1 &&
 //@             signedTag == typetag("saml.AssertionType") && encVer == signedVer + 1 &&
 //@             eqExcept(as(signedBox, "saml.AssertionType"), aqResp().Assertion, "Signature") && as(signedBox, "saml.AssertionType").Signature == nil
 //@   ensures C10.fault-means-error-reply: faulted ==> httpError() && emitCode >= 500
 //@   canary C12.canary-never-answered: !answered()
-//@ func (*provider.IdentityProvider).certificateHandleFunc
-//@   inline
-//@   property C09
-//@   requires wfIDP(i) && wfReq(r) && w != nil
-//@
 //@ ## ---- user attributes ----
 //@ func (*provider.Attributes).GetSAML
 //@   inline
@@ -353,10 +349,6 @@ package provider
 //@   loop 1 invariant elements-non-nil: len(#attrs) >= 0 && (forall i :: 0 <= i && i < len(#attrs) ==> #attrs[i] != nil)
 //@
 //@ pure wfProvider(p) = p != nil && p.conf != nil && p.conf.IDPConfig != nil && p.storage != nil && p.metadataEndpoint != nil && wfIDP(p.identityProvider)
-//@ func (*provider.Provider).metadataHandle
-//@   inline
-//@   property C09
-//@   requires wfProvider(p) && wfReq(r) && w != nil
 //@ func provider.healthHandler
 //@   inline
 //@   property C09
@@ -366,6 +358,12 @@ package provider
 //@   property C09
 //@   requires wfReq(r) && w != nil
 //@   requires forall i :: 0 <= i && i < len(probes) ==> probes[i] != 0
+//@   ensures C10.exactly-one-reply: emitCount == old(emitCount) + 1
+//@   ensures C10.ready-only-if-every-probe-passed: (emitKind == 1 && emitCode == 500) || (emitKind == 6 && tn == old(tn) + len(probes) &&
+//@             (forall j :: 0 <= j && j < len(probes) ==> select(trfn, old(tn) + j) == probes[j] && select(trres, old(tn) + j) == 0))
+//@   loop 1 invariant range: -1 <= $ri && $ri < len(probes)
+//@   loop 1 invariant all-passed-so-far-nothing-sent: tn == old(tn) + $ri + 1 && emitCount == old(emitCount) &&
+//@             (forall j :: 0 <= j && j <= $ri ==> select(trfn, old(tn) + j) == probes[j] && select(trres, old(tn) + j) == 0)
 //@ func provider.ReadyStorage$1
 //@   inline
 //@   property C09
@@ -375,10 +373,31 @@ package provider
 //@   requires i != nil && i.issuerFromRequest != 0 && wfReq(r) && next != nil
 //@
 //@ ## the two loops of getMetadata blank the values of attribute descriptions built in the same call
+//@ ## ---- metadata (C11): what is advertised is computed from the same configuration the routes are built from ----
+//@ pure sloEP(c) = c.Endpoints != nil ? c.Endpoints.SingleLogOut : nil
+//@ pure attrEP(c) = c.Endpoints != nil ? c.Endpoints.Attribute : nil
+//@ pure certEP(c) = c.Endpoints != nil ? c.Endpoints.Certificate : nil
+//@ pure cbEP(c) = c.Endpoints != nil ? c.Endpoints.Callback : nil
+//@ pure relOf(path) = "/" + trimPrefix(path, "/")
 //@ func (*provider.IdentityProviderConfig).getMetadata
 //@   inline
 //@   property C11
 //@   names sso, aa
+//@   requires p != nil && p.MetadataIDPConfig != nil
+//@   ensures advertised-flag-is-the-configured-one: sso.WantAuthnRequestsSigned == p.WantAuthRequestsSigned
+//@   ensures sso-locations: len(sso.SingleSignOnService) == 2 && sso.SingleSignOnService[0].Binding == RedirectBinding && sso.SingleSignOnService[1].Binding == PostBinding &&
+//@             sso.SingleSignOnService[0].Location == absOf(epPath(ssoEP(p), "SSO"), epURL(ssoEP(p)), issuer) &&
+//@             sso.SingleSignOnService[1].Location == absOf(epPath(ssoEP(p), "SSO"), epURL(ssoEP(p)), issuer)
+//@   ensures slo-locations: len(sso.SingleLogoutService) == 2 && sso.SingleLogoutService[0].Binding == RedirectBinding && sso.SingleLogoutService[1].Binding == PostBinding &&
+//@             sso.SingleLogoutService[0].Location == absOf(epPath(sloEP(p), "SLO"), epURL(sloEP(p)), issuer) &&
+//@             sso.SingleLogoutService[1].Location == absOf(epPath(sloEP(p), "SLO"), epURL(sloEP(p)), issuer)
+//@   ensures attribute-service-location: len(aa.AttributeService) == 1 && aa.AttributeService[0].Location == absOf(epPath(attrEP(p), "attribute"), epURL(attrEP(p)), issuer)
+//@   ensures signing-key-descriptor-is-the-certificate-given: len(sso.KeyDescriptor) >= 1 && sso.KeyDescriptor[0].Use == "signing" &&
+//@             len(sso.KeyDescriptor[0].KeyInfo.X509Data) == 1 && sso.KeyDescriptor[0].KeyInfo.X509Data[0].X509Certificate == b64enc(string(idpCertData)) &&
+//@             len(aa.KeyDescriptor) >= 1 && aa.KeyDescriptor[0].Use == "signing" &&
+//@             len(aa.KeyDescriptor[0].KeyInfo.X509Data) == 1 && aa.KeyDescriptor[0].KeyInfo.X509Data[0].X509Certificate == b64enc(string(idpCertData))
+//@   ensures C11,C15.fresh-distinct-descriptor-ids: idIndex(sso.Id) >= old(idCount) && idIndex(aa.Id) >= old(idCount) && sso.Id != aa.Id && sso.Signature == nil && aa.Signature == nil
+//@   canary canary-wrong-location: sso.SingleSignOnService[0].Location == absOf(epPath(sloEP(p), "SLO"), epURL(sloEP(p)), issuer)
 //@   enter mdCalls = mdCalls + 1
 //@   enter mdIssuer = issuer
 //@   enter mdEntity = entityID
@@ -417,3 +436,82 @@ package provider
 //@   ensures ok-iff-absent-or-advertised: (result == nil) <==> (request.Destination == "" || advertised(metadata, request.Destination))
 //@   loop 1 invariant range: -1 <= $ri && $ri < len(metadata.SingleSignOnService)
 //@   loop 1 invariant none-so-far: (forall j :: 0 <= j && j <= $ri ==> metadata.SingleSignOnService[j].Location != request.Destination)
+//@
+//@ func provider.NewIdentityProvider
+//@   names idp, err
+//@   property C11
+//@   requires conf != nil
+//@   assigns *
+//@   ensures endpoints-from-configuration: err == nil ==> idp != nil && idp.conf == conf && idp.endpoints != nil && idp.metadataEndpoint != nil &&
+//@             idp.endpoints.singleSignOnEndpoint.path == epPath(ssoEP(conf), "SSO") && idp.endpoints.singleSignOnEndpoint.url == epURL(ssoEP(conf)) &&
+//@             idp.endpoints.singleLogoutEndpoint.path == epPath(sloEP(conf), "SLO") && idp.endpoints.singleLogoutEndpoint.url == epURL(sloEP(conf)) &&
+//@             idp.endpoints.attributeEndpoint.path == epPath(attrEP(conf), "attribute") && idp.endpoints.attributeEndpoint.url == epURL(attrEP(conf)) &&
+//@             idp.endpoints.certificateEndpoint.path == epPath(certEP(conf), "certificate") && idp.endpoints.callbackEndpoint.path == epPath(cbEP(conf), "login")
+//@   ensures C03,C11.defaults: err == nil ==> idp.TimeFormat == DefaultTimeFormat && idp.Expiration == DefaultExpiration && idp.Expiration > 0 &&
+//@             idp.postTemplate != nil && idp.logoutTemplate != nil && conf.MetadataIDPConfig != nil && idp.metadataEndpoint.path == metadata.path && idp.metadataEndpoint.url == metadata.url
+//@
+//@ func (*provider.IdentityProvider).GetRoutes
+//@   property C11
+//@   requires p != nil && p.endpoints != nil
+//@   ensures five-routes-each-path-with-its-handler: len(result) == 5 &&
+//@             result[0] != nil && result[0].Endpoint == relOf(p.endpoints.certificateEndpoint.path) && isClosure(result[0].HandleFunc, "(*provider.IdentityProvider).certificateHandleFunc$bound", p) &&
+//@             result[1] != nil && result[1].Endpoint == relOf(p.endpoints.callbackEndpoint.path) && isClosure(result[1].HandleFunc, "(*provider.IdentityProvider).callbackHandleFunc$bound", p) &&
+//@             result[2] != nil && result[2].Endpoint == relOf(p.endpoints.singleSignOnEndpoint.path) && isClosure(result[2].HandleFunc, "(*provider.IdentityProvider).ssoHandleFunc$bound", p) &&
+//@             result[3] != nil && result[3].Endpoint == relOf(p.endpoints.singleLogoutEndpoint.path) && isClosure(result[3].HandleFunc, "(*provider.IdentityProvider).logoutHandleFunc$bound", p) &&
+//@             result[4] != nil && result[4].Endpoint == relOf(p.endpoints.attributeEndpoint.path) && isClosure(result[4].HandleFunc, "(*provider.IdentityProvider).attributeQueryHandleFunc$bound", p)
+//@   canary canary-swapped: isClosure(result[2].HandleFunc, "(*provider.IdentityProvider).logoutHandleFunc$bound", p)
+//@
+//@ func (*provider.IdentityProvider).GetMetadata
+//@   inline
+//@   names sso, aa, err
+//@   property C11
+//@   requires wfIDP(p) && ctx != nil
+//@   ensures C10,C11.fails-closed-on-key-fault: err == nil ==> keyOK && keyCalls == old(keyCalls) + 1 && sso != nil && aa != nil && mdCalls == old(mdCalls) + 1 && mdSSO == sso && mdAA == aa
+//@   ensures C11.computed-for-this-request: err == nil ==> mdIssuer == issuerOfCtx(valof(ctx)) && mdEntity == endpointAbs(p.metadataEndpoint, issuerOfCtx(valof(ctx)))
+//@   ensures C11.certificate-is-the-response-signing-record: err == nil ==> len(sso.KeyDescriptor) >= 1 && len(sso.KeyDescriptor[0].KeyInfo.X509Data) == 1 &&
+//@             sso.KeyDescriptor[0].KeyInfo.X509Data[0].X509Certificate == b64enc(string(as(keyRec, "key.CertificateAndKey").Certificate))
+//@   ensures C10.nothing-on-error: err != nil ==> sso == nil && aa == nil
+//@
+//@ func (*provider.Config).getMetadata
+//@   inline
+//@   names entity, err
+//@   property C11
+//@   requires c != nil && c.IDPConfig != nil && wfIDP(idp) && ctx != nil
+//@   ensures C11.entity-id-is-the-issuer-of-responses: err == nil ==> entity != nil && entity.EntityID == endpointAbs(idp.metadataEndpoint, issuerOfCtx(valof(ctx))) && entity.Signature == nil
+//@   ensures C11.descriptors-of-this-request: err == nil && c.IDPConfig != nil ==> mdCalls == old(mdCalls) + 1 && entity.IDPSSODescriptor == mdSSO && entity.AttributeAuthorityDescriptor == mdAA
+//@   ensures C11,C15.fresh-entity-id: err == nil ==> idIndex(entity.Id) >= old(idCount) && entity.Id == idOf(idIndex(entity.Id))
+//@   ensures C10.nothing-on-error: err != nil ==> entity == nil
+//@
+//@ func (*provider.Provider).GetMetadata
+//@   inline
+//@   names entity, err
+//@   property C04 C10 C11
+//@   requires wfProvider(p) && ctx != nil && !faulted
+//@   ensures C10.fault-means-error: faulted ==> err != nil && entity == nil
+//@   ensures C04.signed-iff-configured: err == nil && p.conf.MetadataConfig != nil && p.conf.MetadataConfig.SignatureAlgorithm != "" ==> entity != nil &&
+//@             mkeyOK && entity.Signature == sigOut && sigOut != nil && signCount == old(signCount) + 1 && signedTag == typetag("*md.EntityDescriptorType") && signedBox == entity &&
+//@             gsCalls == old(gsCalls) + 1 && gsCert == string(as(mkeyRec, "key.CertificateAndKey").Certificate) && gsKey == as(mkeyRec, "key.CertificateAndKey").Key && gsAlg == p.conf.MetadataConfig.SignatureAlgorithm &&
+//@             msgver == signedVer + 1
+//@   ensures C04.unsigned-otherwise: err == nil && (p.conf.MetadataConfig == nil || p.conf.MetadataConfig.SignatureAlgorithm == "") ==> entity != nil && entity.Signature == nil && signCount == old(signCount)
+//@   ensures C11.entity-id: err == nil ==> entity.EntityID == endpointAbs(p.identityProvider.metadataEndpoint, issuerOfCtx(valof(ctx)))
+//@
+//@ func (*provider.Provider).metadataHandle
+//@   inline
+//@   property C09
+//@   requires wfProvider(p) && wfReq(r) && w != nil
+//@   requires !faulted
+//@   ensures C10,C11.exactly-one-reply: emitCount == old(emitCount) + 1
+//@   ensures C10.fault-means-error-reply: faulted ==> httpError() && emitCode >= 500
+//@   ensures C11.reply-is-error-or-the-entity-descriptor: httpError() || (emitKind == 5 && encTag == typetag("*md.EntityDescriptorType") && msgCurrent() &&
+//@             as(encRef, "md.EntityDescriptorType").EntityID == endpointAbs(p.identityProvider.metadataEndpoint, issuerOfCtx(ctxOf(r))))
+//@   ensures C04.served-signature-is-over-the-document-served: emitKind == 5 && as(encRef, "md.EntityDescriptorType").Signature != nil ==>
+//@             as(encRef, "md.EntityDescriptorType").Signature == sigOut && signedBox == encRef && encVer == signedVer + 1
+//@
+//@ func (*provider.IdentityProvider).certificateHandleFunc
+//@   inline
+//@   property C09
+//@   requires wfIDP(i) && wfReq(r) && w != nil
+//@   requires !faulted
+//@   ensures C10,C11.exactly-one-reply: emitCount == old(emitCount) + 1
+//@   ensures C10.fault-means-error-reply: faulted ==> httpError() && emitCode >= 500
+//@   ensures C11.serves-the-response-signing-certificate: !httpError() ==> emitKind == 3 && keyOK && emitStr == pemenc(string(as(keyRec, "key.CertificateAndKey").Certificate))
